@@ -616,6 +616,18 @@ RULES = {
     "R29": Rule("R29", "V.extend(E.iter().map(|&b| { BODY })); -> index loop pushing BODY evaluated per element, in order (std: Extend for Vec pushes each item the Map adapter yields; the FnMut closure runs once per element, sequentially)",
                  "$v . extend ( $e . iter ( ) . map ( | & $b | { $$body } ) ) ;",
                  "{ let mut i__ = 0 ; while i__ < $e . len ( ) { let $b = $e [ i__ ] ; i__ += 1 ; let x__ = { $$body } ; $v . push ( x__ ) ; } }"),
+    "R3ca": Rule("R3ca", "X.clone() & Y -> BitAnd::bitand(X.clone(), Y)", "$x . clone ( ) & $y", "BitAnd :: bitand ( $x . clone ( ) , $y )"),
+    "R3co": Rule("R3co", "X.clone() | Y -> BitOr::bitor(X.clone(), Y)", "$x . clone ( ) | $y", "BitOr :: bitor ( $x . clone ( ) , $y )"),
+    "R3cx": Rule("R3cx", "X.clone() ^ Y -> BitXor::bitxor(X.clone(), Y)", "$x . clone ( ) ^ $y", "BitXor :: bitxor ( $x . clone ( ) , $y )"),
+    "R3da": Rule("R3da", "&self.data & &other.data -> BitAnd::bitand(&self.data, &other.data)", "& self . data & & other . data", "BitAnd :: bitand ( & self . data , & other . data )"),
+    "R3do": Rule("R3do", "&self.data | &other.data -> BitOr::bitor(&self.data, &other.data)", "& self . data | & other . data", "BitOr :: bitor ( & self . data , & other . data )"),
+    "R3dp": Rule("R3dp", "&self.data + 1u32 -> Add::add(&self.data, 1u32)", "& self . data + 1u32", "Add :: add ( & self . data , 1u32 )"),
+    "R3dm": Rule("R3dm", "&self.data - 1u32 -> Sub::sub(&self.data, 1u32)", "& self . data - 1u32", "Sub :: sub ( & self . data , 1u32 )"),
+    "R3ng": Rule("R3ng", "-BigInt::X(..) -> Neg::neg(BigInt::X(..))", "- BigInt :: $f ( $$a )", "Neg :: neg ( BigInt :: $f ( $$a ) )"),
+    "R16v": Rule("R16v", "Ord::cmp(&bit, &trailing_zeros) -> __u64_cmp(bit, trailing_zeros)  (std: total order on u64)",
+                 "Ord :: cmp ( & bit , & trailing_zeros )", "__u64_cmp ( bit , trailing_zeros )"),
+    "R0p": Rule("R0p", "crate::big_digit::BITS -> big_digit::BITS  (path of the same constant inside the unit's module)",
+                "crate :: big_digit :: BITS", "big_digit :: BITS"),
     "R16u": Rule("R16u", "Ord::cmp(&a.len(), &b.len()) -> __usize_cmp(a.len(), b.len())  (std: total order on usize)",
                  "Ord :: cmp ( & a . len ( ) , & b . len ( ) )", "__usize_cmp ( a . len ( ) , b . len ( ) )"),
     "R10y": Rule("R10y", "for (a, &b) in A.iter_mut().zip(B) { BODY } (B: &[T]) -> index loop over min(len A, len B)",
